@@ -39,12 +39,12 @@ def plan(tier, seed):
     specs = []
     for io in ((0, 1), (1, 0)):
         specs.append(dict(kind='conv_all', int_order=list(io), seed=seed))
-    for s in range(10 if tier == 'thorough' else 4):
+    for s in range(16 if tier == 'thorough' else 4):
         specs.append(dict(kind='conv_random', seed=seed * 100 + s,
-                          examples=1000 if tier == 'thorough' else 200))
-    for s in range(10 if tier == 'thorough' else 4):
+                          examples=3000 if tier == 'thorough' else 200))
+    for s in range(32 if tier == 'thorough' else 4):
         specs.append(dict(kind='algebra', seed=seed * 100 + 50 + s,
-                          examples=1500 if tier == 'thorough' else 300))
+                          examples=3000 if tier == 'thorough' else 300))
     return specs
 
 
